@@ -31,7 +31,7 @@ def seeds(src, dst):
 def benign(src, dst):
     rows = []
     for ln in open(src):
-        m = re.match(r'(C\d+) (benign_\d+\.diff): (.*)$', ln.strip())
+        m = re.match(r'(C\d+\S*) (benign_\d+\.diff): (.*)$', ln.strip())
         if not m:
             continue
         pid, f, res = m.groups()
